@@ -548,6 +548,33 @@ func (in *Interp) symbolicBranch(fr *frame, blk *ssa.BasicBlock, ifi *ssa.If, p 
 		in.BothReject++
 		return blk.Succs[1], nil
 	}
+	// return-gate: both sides are effect-free blocks ending in a return: the results are muxed
+	if ra, rb := pureReturnBlock(blk.Succs[0]), pureReturnBlock(blk.Succs[1]); ra != nil && rb != nil && len(ra.Results) == len(rb.Results) {
+		for _, sb := range []*ssa.BasicBlock{blk.Succs[0], blk.Succs[1]} {
+			for _, ins := range sb.Instrs {
+				if v, ok := ins.(ssa.Value); ok {
+					if _, isCall := ins.(*ssa.Call); isCall {
+						in.fail("call inside a data-dependent return at %s", in.pos(ins.Pos()))
+					}
+					fr.vals[v] = in.eval(fr, v)
+				}
+			}
+		}
+		var res []Val
+		for i := range ra.Results {
+			a, ok1 := in.get(fr, ra.Results[i]).(*BV)
+			b, ok2 := in.get(fr, rb.Results[i]).(*BV)
+			if !ok1 || !ok2 || a.W() != b.W() {
+				in.fail("data-dependent return of non-scalar values at %s", in.pos(ifi.Cond.Pos()))
+			}
+			m := &BV{Bits: make([]Poly, a.W()), Signed: a.Signed}
+			for k := range m.Bits {
+				m.Bits[k] = Mux(p, a.Bits[k], b.Bits[k])
+			}
+			res = append(res, m)
+		}
+		return nil, &Exit{Results: res, Instr: ra}
+	}
 	// gate: both sides rejoin at a common block through straight-line, effect-free code
 	chain := func(s *ssa.BasicBlock) ([]*ssa.BasicBlock, *ssa.BasicBlock) {
 		var bs []*ssa.BasicBlock
@@ -648,6 +675,24 @@ func (in *Interp) continueFrom(fr *frame, join, next *ssa.BasicBlock) (*ssa.Basi
 		}
 		pred, blk = blk, n
 	}
+}
+
+// pureReturnBlock: a block with a single predecessor that only computes values and returns.
+func pureReturnBlock(b *ssa.BasicBlock) *ssa.Return {
+	if len(b.Preds) != 1 {
+		return nil
+	}
+	ret, ok := b.Instrs[len(b.Instrs)-1].(*ssa.Return)
+	if !ok {
+		return nil
+	}
+	for _, ins := range b.Instrs[:len(b.Instrs)-1] {
+		switch ins.(type) {
+		case *ssa.Store, *ssa.MapUpdate, *ssa.Call, *ssa.Phi, *ssa.Send, *ssa.Go, *ssa.Defer, *ssa.RunDefers:
+			return nil
+		}
+	}
+	return ret
 }
 
 func isPureBuiltin(c *ssa.Call) bool {
@@ -1046,6 +1091,16 @@ func symbolicCompare(op token.Token, a, b *BV) (Val, bool) {
 			}
 		}
 		return lo, hi, true
+	}
+	// signed comparison with a constant: flip the sign bits and compare unsigned
+	if a.Signed && b.Signed && a.W() == b.W() && a.W() > 0 {
+		if _, ok := b.Const(); ok {
+			fa := &BV{Bits: append([]Poly{}, a.Bits...)}
+			fb := &BV{Bits: append([]Poly{}, b.Bits...)}
+			fa.Bits[a.W()-1] = Not(fa.Bits[a.W()-1])
+			fb.Bits[b.W()-1] = Not(fb.Bits[b.W()-1])
+			return symbolicCompare(op, fa, fb)
+		}
 	}
 	// exact comparator circuit when one side is constant and the comparison is unsigned
 	if !a.Signed && !b.Signed {
